@@ -422,11 +422,13 @@ func TestEngineStaking(t *testing.T) {
 			sort.Slice(mine, less(mine))
 			return mine[0].id, true
 		}
+		// every bonded validator of the chain — also the block proposer's, which the generated operations never target
+		// (a false alarm of seed 2: the candidates were taken from the operation targets, one validator short)
 		var all []cand
-		for _, id := range valIDs {
-			v, err := sk.GetValidator(ctx, valAddr[id])
-			if err == nil && v.IsBonded() {
-				all = append(all, cand{id, v.Tokens.BigInt(), v.OperatorAddress})
+		everyVal, _ := sk.GetAllValidators(ctx)
+		for _, v := range everyVal {
+			if v.IsBonded() {
+				all = append(all, cand{idOfVal(v.OperatorAddress), v.Tokens.BigInt(), v.OperatorAddress})
 			}
 		}
 		if len(all) == 0 {
